@@ -186,6 +186,7 @@ package varmq
 
 // Close of a batch member: refused while processing / when closed; otherwise closed and the batch counter drops by exactly one.
 //@ func groupJob.Close
+//@   assert [closed-before-release] before call helpers.WgCounter.Done: gj.job.status == closed
 //@   props C05 C08 C10 C16
 //@   requires RI_member($addr(gj.job)) && MemberOK(gj.job.status, gj.wgc)
 //@   modifies gj.job.status, gj.wgc.count, gj.wgc.wg, $acks(gj.job.queue), $lastAck(gj.job.queue), $alloc, $wgdone[0]
@@ -218,6 +219,7 @@ package varmq
 
 // Close of a result-batch member: as groupJob.Close, and the stream is closed exactly when the counter reaches zero.
 //@ func resultGroupJob.Close
+//@   assert [closed-before-release] before call helpers.WgCounter.Done: gj.resultJob.job.status == closed
 //@   props C05 C08 C10 C16
 //@   requires RI_member($addr(gj.resultJob.job)) && MemberOK(gj.resultJob.job.status, gj.wgc) && StreamOK(gj.resultJob.Response, gj.wgc)
 //@   modifies gj.resultJob.job.status, gj.wgc.count, gj.wgc.wg, $acks(gj.resultJob.job.queue), $lastAck(gj.resultJob.job.queue), $alloc, $wgdone[0], $open(gj.resultJob.Response.ch)
@@ -251,6 +253,7 @@ package varmq
 //@   ensures result == gj.wgc.count
 
 //@ func errorGroupJob.Close
+//@   assert [closed-before-release] before call helpers.WgCounter.Done: gj.errorJob.job.status == closed
 //@   props C05 C08 C10 C16
 //@   requires RI_member($addr(gj.errorJob.job)) && MemberOK(gj.errorJob.job.status, gj.wgc) && StreamOK(gj.errorJob.Response, gj.wgc)
 //@   modifies gj.errorJob.job.status, gj.wgc.count, gj.wgc.wg, $acks(gj.errorJob.job.queue), $lastAck(gj.errorJob.job.queue), $alloc, $wgdone[0], $open(gj.errorJob.Response.ch)
